@@ -165,7 +165,20 @@ func newRun(sc *Scenario) *run {
 		gated: map[string]bool{}, cbCh: map[string]chan controlcommands.MesosCommandResponse{}, cbGot: map[string]chan struct{}{},
 		cbN: map[string]int{}, first: map[string]map[string]interface{}{}, prOpen: map[string]bool{}, prWG: map[string]chan struct{}{}, noWait: map[string]bool{}, mustRet: map[string]bool{},
 		timeout: time.Duration(sc.ToMs) * time.Millisecond}
-	for _, t := range []string{"t1", "t2", "t3", "t4", "tx"} {
+	names := []string{"t1", "t2", "t3", "t4", "tx"}
+	have := map[string]bool{}
+	for _, t := range names {
+		have[t] = true
+	}
+	for _, ts := range sc.Tg { // any number of targets: ids are data
+		for _, t := range ts {
+			if !have[t] {
+				have[t] = true
+				names = append(names, t)
+			}
+		}
+	}
+	for _, t := range names {
 		tg := mkTarget(t)
 		r.targets[t] = tg
 		r.tname[tg] = t
